@@ -50,6 +50,8 @@ type c05Spec struct {
 	Faults    []c05Fault `json:"faults,omitempty"`
 	Waiters   int        `json:"waiters"`
 	Version   string     `json:"version,omitempty"` // requested protocol version ("" = the client's default)
+	KeepAlive string     `json:"keepalive,omitempty"`   // "", client, server, both: keep-alive (1 s) configured on that side
+	FinalBy   string     `json:"final_by,omitempty"`    // "" (both), client, server: who calls Close at the end; the other side only waits
 }
 
 func genC05(r *vh.Rand, idx int) c05Spec {
@@ -57,6 +59,12 @@ func genC05(r *vh.Rand, idx int) c05Spec {
 	if r.Chance(1, 4) {
 		s.Version = "" // 2026-07-28 on persistent connections
 		s.Transport = r.Choose("mem", "pipe", "pipe-stubborn")
+	}
+	if r.Chance(1, 3) {
+		s.KeepAlive = r.Choose("client", "server", "both")
+	}
+	if (s.Transport == "mem" || s.Transport == "pipe") && r.Chance(1, 3) {
+		s.FinalBy = r.Choose("client", "server") // the peer vanishes; this side never calls Close
 	}
 	n := 0
 	horizon := r.Range(4, 12)
@@ -169,14 +177,27 @@ func runC05(c *vh.Case, spec c05Spec) {
 		}
 	}
 	dur := func(n int) time.Duration { return durOf[n] }
-	server := mcp.NewServer(&mcp.Implementation{Name: "s", Version: "1"}, nil)
+	var sopts *mcp.ServerOptions
+	copts := &mcp.ClientOptions{}
+	if spec.KeepAlive == "server" || spec.KeepAlive == "both" {
+		sopts = &mcp.ServerOptions{KeepAlive: time.Second}
+	}
+	if spec.KeepAlive == "client" || spec.KeepAlive == "both" {
+		copts.KeepAlive = time.Second
+	}
+	if spec.Version == "" {
+		// a 2026-07-28 session with list-changed handlers keeps a subscriptions/listen call open for its whole life
+		copts.ToolListChangedHandler = func(context.Context, *mcp.ToolListChangedRequest) {}
+		copts.ResourceListChangedHandler = func(context.Context, *mcp.ResourceListChangedRequest) {}
+	}
+	server := mcp.NewServer(&mcp.Implementation{Name: "s", Version: "1"}, sopts)
 	server.AddTool(&mcp.Tool{Name: "work", InputSchema: json.RawMessage(`{"type":"object"}`)}, func(ctx context.Context, req *mcp.CallToolRequest) (*mcp.CallToolResult, error) {
 		var a struct{ Nonce int }
 		json.Unmarshal(req.Params.Arguments, &a)
 		return &mcp.CallToolResult{Content: []mcp.Content{&mcp.TextContent{Text: fmt.Sprintf("nonce-%d", a.Nonce)}}}, nil
 	})
 	server.AddReceivingMiddleware(c05MW(log, "server", dur))
-	client := mcp.NewClient(&mcp.Implementation{Name: "c", Version: "1"}, nil)
+	client := mcp.NewClient(&mcp.Implementation{Name: "c", Version: "1"}, copts)
 	client.AddRoots(&mcp.Root{URI: "file:///r"})
 	client.AddReceivingMiddleware(c05MW(log, "client", dur))
 
@@ -350,9 +371,14 @@ func runC05(c *vh.Case, spec c05Spec) {
 	time.Sleep(ms(40))
 	log.Add("final-close")
 	var fin sync.WaitGroup
-	fin.Add(2)
-	go func() { defer fin.Done(); cs.Close(); log.Add("final-close-returned", "side", "client") }()
-	go func() { defer fin.Done(); ss.Close(); log.Add("final-close-returned", "side", "server") }()
+	if spec.FinalBy != "server" {
+		fin.Add(1)
+		go func() { defer fin.Done(); cs.Close(); log.Add("final-close-returned", "side", "client") }()
+	}
+	if spec.FinalBy != "client" {
+		fin.Add(1)
+		go func() { defer fin.Done(); ss.Close(); log.Add("final-close-returned", "side", "server") }()
+	}
 	fin.Wait()
 	wg.Wait()
 	synctestWait()
